@@ -534,6 +534,7 @@ func genC13(r *Rng, tier string) *World {
 	c.Widths = true
 	c.RawStrings = true
 	c.BigInts = true
+	c.InfFloats = true
 	root := GenNode(r, &c, 0, true)
 	// both modes name a field by its `zog` tag (no source tag is involved for a plain map); other tags are dropped here
 	root.Walk(func(n *Node) {
